@@ -22,9 +22,9 @@ import (
 
 type c32Params struct{ shared bool }
 
-func (p *c32Params) CurveID() CurveID     { return CurveP256 }
-func (p *c32Params) PublicKey() []byte    { return []byte{4, 1, 2} }
-func (p *c32Params) Clone() ecdheParameters { return p }
+func (p *c32Params) CurveID() CurveID                                          { return CurveP256 }
+func (p *c32Params) PublicKey() []byte                                         { return []byte{4, 1, 2} }
+func (p *c32Params) Clone() ecdheParameters                                    { return p }
 func (p *c32Params) MakeLog() (*jsonKeys.ECPoint, *jsonKeys.ECDHPrivateParams) { return nil, nil }
 func (p *c32Params) SharedKey(peer []byte) []byte {
 	if p.shared {
